@@ -764,6 +764,58 @@ def evaluate(run, tag, items, fn, per=150):
     return (ok, tuple(bads), log) if isinstance(fn, tuple) else (ok, bads[0], log)
 
 
+def hpeer_asymmetric(tier):
+    """real Peer/Protocol/KA/ReceiveTimer under virtual time; our configuration says hold-time 180, the scripted
+    speaker's OPEN says less.  Judged on the wire only: KEEPALIVE count over a known span, NOTIFICATIONs written."""
+    from harness import hpeer
+
+    rows, fails = [], []
+
+    def written(res, kind):
+        return [r for r in res['log'] if r[0] == 'w' and r[2] == kind]
+
+    def established_prefix(peer_hold):
+        return [['tick', None], ['connect_ok', None], ['recv', f'OpenOkHold{peer_hold}'], ['recv', 'Keepalive']]
+
+    scen = []
+    # the peer keeps talking every second for `span` s: we owe it one KEEPALIVE per negotiated H/3
+    for peer_hold, span in ((9, 21), (30, 45)) if tier == 'quick' else ((9, 21), (9, 60), (30, 45), (30, 100), (90, 200), (3, 12)):
+        steps = established_prefix(peer_hold)
+        for _ in range(span):
+            steps += [['silence', 1.0], ['recv', 'Keepalive']]
+        scen.append((f'talking:{peer_hold}:{span}', peer_hold, span, steps))
+    # negotiated 0: no periodic KEEPALIVE, no hold timer, however long the silence
+    scen.append(('zero:200', 0, 200, established_prefix(0) + [['silence', 200.0]]))
+    # a slow first KEEPALIVE (T s after the OPENs), then a silence G < H with T + G > H: still up
+    for peer_hold, T, G in ((9, 6.0, 6.0), (30, 20.0, 20.0)):
+        steps = [['tick', None], ['connect_ok', None], ['recv', f'OpenOkHold{peer_hold}'], ['silence', T], ['recv', 'Keepalive'],
+                 ['silence', G], ['recv', 'Keepalive'], ['silence', 1.0]]
+        scen.append((f'slow-first-keepalive:{peer_hold}:{T}:{G}', peer_hold, None, steps))
+    for name, H, span, steps in scen:
+        res = hpeer.run_script(steps, gap=0.5)
+        kas = len(written(res, 'KEEPALIVE'))
+        notes = [[r[3], r[4]] for r in written(res, 'NOTIFICATION')]
+        row = {'name': name, 'negotiated_hold': H, 'keepalives_written': kas, 'notifications': notes, 'final_fsm': res['final_fsm'],
+               'skipped': res['skipped']}
+        problem = None
+        if res['skipped']:
+            problem = f'steps {res["skipped"]} found no transport: the session was gone before the scenario ended; NOTIFICATIONs {notes}'
+        elif notes:
+            problem = f'closed: negotiated hold time {H}, NOTIFICATION {notes} although the peer was never silent for H seconds'
+        elif name.startswith('talking'):
+            # one KEEPALIVE answers the OPEN; afterwards one per H/3 s (+ 1 s integer clock + loop gap): at least span/(H/3 + 2) of them
+            need = 1 + int(span // (H // 3 + 2))
+            if kas < need:
+                problem = f'keepalive-late: negotiated hold time {H}: {kas} KEEPALIVEs written in {span} s, at least {need} are due (one per {H // 3} s)'
+        elif name.startswith('zero'):
+            if kas > 1:
+                problem = f'zero-keepalive-sent: negotiated hold time 0: {kas - 1} periodic KEEPALIVEs written in {span} s'
+        if problem:
+            fails.append(dict(row, problem=problem, script=steps if len(steps) < 30 else steps[:8] + [['...', len(steps)]]))
+        rows.append(row)
+    return rows, fails
+
+
 def hpeer_held_up(hold, block_s, nroutes=1500, block_at=500):
     """harness/hpeer.py measure_loop_gap (real Peer._main over the rig, virtual time) with one write of the batch blocked
     for block_s > hold seconds; every NOTIFICATION the speaker under test writes is recorded"""
@@ -980,6 +1032,16 @@ def check(tier, seed):
     run.obligation('H-peer (harness/hpeer.py rig, real Peer/Protocol/timers under virtual time): a write of the outbound batch blocks '
                    'longer than H while the remote speaker sends a KEEPALIVE every H/3 s: the session stays established, no NOTIFICATION',
                    hp_ok, hp_detail)
+
+    # ---- H-peer: the two speakers propose DIFFERENT hold times (ours 180); the timers must run on the negotiated one
+    asym_rows, asym_fail = hpeer_asymmetric(tier)
+    run.coverage['hpeer_asymmetric_hold'] = asym_rows
+    run.obligation('H-peer: hold times proposed by the two OPENs differ (ours 180, peer 9 / 30 / 0): KEEPALIVEs go out every '
+                   'negotiated H/3 (none for H = 0), and a silence shorter than the negotiated H - counted from the last '
+                   'message, the KEEPALIVE that completed the handshake included - does not close the session',
+                   not asym_fail, str(asym_fail or asym_rows)[:900])
+    for row in asym_fail[:2]:
+        run.fail_case('hpeer-asymmetric:' + row['problem'].split(':')[0], row['problem'], {'hpeer_asymmetric': row['name'], 'script': row['script']})
 
     # ---- property oracle
     run.obligation(f'property oracle: hold timer (4/0 iff silence > H, judged in real time on the wire), KEEPALIVE spacing, H = 0, '
